@@ -1,0 +1,89 @@
+//go:build verif
+// +build verif
+
+package core
+
+import (
+	"strconv"
+
+	"com.tuntun.rangers/node/src/common"
+	"com.tuntun.rangers/node/src/middleware/db"
+	"com.tuntun.rangers/node/src/middleware/log"
+	"com.tuntun.rangers/node/src/middleware/types"
+	lru "github.com/hashicorp/golang-lru"
+)
+
+// Verification hooks for the replica-determinism check (build tag verif only, add-only): the chain
+// contexts block execution asks for block hashes - the main chain's height index ("fullverify",
+// "casting") and the sync processor's fork DB in front of it ("fork") - without the block store, the group
+// chain and the network layer. Every function only calls node code or sets what InitCore/startSync set.
+
+// VerifC01ChainInit installs a block chain object that holds the height index only (what
+// QueryBlockHeaderByHeight / GetBlockHash read) and a sync processor over it.
+func VerifC01ChainInit() error {
+	VerifC01InitLoggers()
+	idx := strconv.Itoa(common.InstanceIndex)
+	if syncLogger == nil {
+		syncLogger = log.GetLoggerByIndex(log.SyncLogConfig, idx)
+	}
+	if syncHandleLogger == nil {
+		syncHandleLogger = log.GetLoggerByIndex(log.SyncHandleLogConfig, idx)
+	}
+	chain := &blockChain{}
+	chain.topBlocks, _ = lru.New(100)
+	var err error
+	chain.heightDB, err = db.NewDatabase(heightDBPrefix)
+	if err != nil {
+		return err
+	}
+	blockChainImpl = chain
+	SyncProcessor = &syncProcessor{blockChain: chain, logger: syncLogger}
+	return nil
+}
+
+// VerifC01ChainSetHeader puts a header on the main chain's height index (addBlockOnChain's index write)
+// and makes it the top when it is the highest.
+func VerifC01ChainSetHeader(h *types.BlockHeader) error {
+	raw, err := types.MarshalBlockHeader(h)
+	if err != nil {
+		return err
+	}
+	if err := blockChainImpl.heightDB.Put(generateHeightKey(h.Height), raw); err != nil {
+		return err
+	}
+	blockChainImpl.topBlocks.Add(h.Height, h)
+	if blockChainImpl.latestBlock == nil || blockChainImpl.latestBlock.Height <= h.Height {
+		blockChainImpl.latestBlock = h
+	}
+	return nil
+}
+
+// VerifC01ForkBegin = what startSync does once the common ancestor is known:
+// SyncProcessor.blockFork = newBlockChainFork(ancestor block of the local chain).
+func VerifC01ForkBegin(ancestorHeight uint64) bool {
+	h := blockChainImpl.QueryBlockHeaderByHeight(ancestorHeight, true)
+	if h == nil {
+		return false
+	}
+	SyncProcessor.blockFork = newBlockChainFork(types.Block{Header: h})
+	return true
+}
+
+// VerifC01ForkInsert = the tail of addBlockOnFork (after its order/hash/signature/state checks):
+// insertBlock and move the fork's latest block.
+func VerifC01ForkInsert(b *types.Block) error {
+	f := SyncProcessor.blockFork
+	if err := f.insertBlock(b); err != nil {
+		return err
+	}
+	f.latestBlock = b.Header
+	return nil
+}
+
+// VerifC01ForkFinish = the block-fork part of finishCurrentSync: destroy and forget the fork.
+func VerifC01ForkFinish() {
+	if SyncProcessor.blockFork != nil {
+		SyncProcessor.blockFork.destroy()
+		SyncProcessor.blockFork = nil
+	}
+}
